@@ -68,7 +68,16 @@ def check(lines):
     prev_R = None
     ops_since_R = True
     first_idle_seen = False
-    stats = dict(events=len(evs), jumps=0, aborted=0, ok=0, immediate=0, requeue=0)
+    ever_stopped = False  # a stop() call was seen: C02's "no event lost, duplicated or reordered" applies
+    idles_stopped = 0     # idle points seen in the current run() while stopped (since the later of stop / run entry)
+    second_idle_t = None  # clock at a second idle point reached while stopped
+    in_run = False        # between `C top run` and its R line
+    run_handlers = 0      # handlers the loop invoked in the current run()
+    run_fires = 0         # timer expiries the loop processed in the current run()
+    stats = dict(events=len(evs), jumps=0, aborted=0, ok=0, immediate=0, requeue=0,
+                 idle_with_2_waits_pending=0, jumps_firing_2_waits=0, jumps_firing_tied_waits=0, ties_armed_not_in_wait_order=0, order_pairs_compared=0,
+                 second_run_checked=0, run_count_checked=0, stop_calls=0, stop_at_top=0, stopped_rounds_checked=0,
+                 restart_inside_run=0, restart_with_2_waits_pending=0, restart_with_wait_and_post_pending=0)
 
     def observe_time(t, what):
         nonlocal last_t, after_idle, expect_after_idle, jump_no
@@ -84,7 +93,7 @@ def check(lines):
 
     def do_idle(t):
         # the loop is idle at clock t: jump to the earliest armed expiry, fire all due
-        nonlocal after_idle, expect_after_idle, jump_no
+        nonlocal after_idle, expect_after_idle, jump_no, run_fires
         armed = [(v["e"], v["seq"], n) for n, v in ref.t.items() if v["armed"]]
         if armed:
             e0 = min(armed)[0]
@@ -93,15 +102,24 @@ def check(lines):
             tgt = t
         expect_after_idle = tgt
         after_idle = True
+        if sum(1 for v in ref.t.values() if v["armed"] and v["waiter"] is not None) >= 2: stats["idle_with_2_waits_pending"] += 1
         if armed:
             jump_no += 1; stats["jumps"] += 1
+            batch = []
             for e, sq, n in sorted(armed):
                 if e <= tgt:
                     v = ref.t[n]; v["armed"] = False
+                    run_fires += 1
                     if v["waiter"] is not None:
                         h = v["waiter"]; v["waiter"] = None
                         started[h]["state"] = "fired"; started[h]["due"] = max(e, started[h]["s"])
                         fire_order[h] = (jump_no, e, sq)
+                        batch.append((e, sq, started[h]["wseq"]))
+            if len(batch) >= 2:
+                stats["jumps_firing_2_waits"] += 1
+                tied = [(a, b) for i, a in enumerate(batch) for b in batch[i + 1:] if a[0] == b[0]]
+                if tied: stats["jumps_firing_tied_waits"] += 1
+                if any(a[2] > b[2] for a, b in tied): stats["ties_armed_not_in_wait_order"] += 1
 
     def abort_waiter(v):
         h = v["waiter"]; v["waiter"] = None
@@ -117,12 +135,28 @@ def check(lines):
             continue
         if k == "K":
             observe_time(ev[1], "idle")
+            if stopped:
+                # stop() lets the current round finish (ready handlers, then one clock step whose
+                # completions are posted but not run); the loop must not go round again
+                # (a further idle point at which nothing happens is not observable through the API: only a
+                # handler run or a clock change after it is held against the implementation)
+                if idles_stopped >= 1 and second_idle_t is None: second_idle_t = ev[1]
+                idles_stopped += 1
             do_idle(ev[1])
             continue
         if k == "R":
             observe_time(ev[2], "run-return")
+            if stopped and second_idle_t is not None and ev[2] != second_idle_t:
+                f2.append(("stop_takes_effect", "the clock moved %d -> %d in a further round of the loop although stop() had been called and restart() had not" % (second_idle_t, ev[2])))
+            second_idle_t = None
+            if in_run: stats["run_count_checked"] += 1
+            if in_run and stopped: stats["stopped_rounds_checked"] += 1
+            if in_run and ev[1] != run_handlers + run_fires:
+                f2.append(("run_count", "run() returned %d but executed %d handlers and processed %d timer expiries" % (ev[1], run_handlers, run_fires)))
+            in_run = False
             # a second run right after a quiescent return executes nothing
             if prev_R is not None and not ops_since_R and not prev_R[2]:
+                stats["second_run_checked"] += 1
                 if ev[1] != 0 or ev[2] != prev_R[1]:
                     f2.append(("second_run_noop", "run after quiescent return executed %d, clock %d -> %d" % (ev[1], prev_R[1], ev[2])))
             quiescent = (not any(v["armed"] for v in ref.t.values())
@@ -143,7 +177,7 @@ def check(lines):
         if k == "T":
             # exception out of run(): everything pending was cancelled, the simulation is stopped
             observe_time(ev[1], "run-exception")
-            stopped = True
+            stopped = True; in_run = False
             for v in ref.t.values():
                 if v["armed"]:
                     v["armed"] = False
@@ -154,6 +188,9 @@ def check(lines):
         if k == "H":
             h = ev[1][1:]; t = ev[2]; ec = ev[3]
             observe_time(t, "handler h%s" % h)
+            if ev[4] != "1": run_handlers += 1
+            if stopped and idles_stopped >= 1:
+                f2.append(("stop_takes_effect", "h%s ran at t=%d after the clock step that followed stop(); run() should have returned" % (h, t)))
             if ev[4] == "1" and h in started:
                 f3.append(("never_inline", "h%s invoked from inside an initiating call" % h))
             if h in done:
@@ -179,6 +216,7 @@ def check(lines):
                 # order among completions posted by the same jump
                 if h in fire_order and ec == "ok":
                     for h2, o2 in fire_order.items():
+                        if h2 != h and h2 in done_order and o2[0] == fire_order[h][0]: stats["order_pairs_compared"] += 1
                         if h2 != h and h2 in done_order and o2[0] == fire_order[h][0] and (o2[1], o2[2]) > (fire_order[h][1], fire_order[h][2]):
                             f3.append(("order", "h%s (expiry %d, armed #%d) ran after h%s (expiry %d, armed #%d) fired by the same jump" % (h, fire_order[h][1], fire_order[h][2], h2, o2[1], o2[2])))
                 done_order[h] = True
@@ -195,12 +233,34 @@ def check(lines):
             continue
         if k == "C":
             ctx, op, res = ev[1], ev[2], ev[3]
-            ops_since_R = True
             if not op: continue
             o = op[0]
-            if o == "run": continue
-            if o == "stop": stopped = True; continue
-            if o == "restart": stopped = False; continue
+            tnow = last_t
+            if ctx.startswith("a") and after_idle and expect_after_idle is not None:
+                # step hook right after a clock step (completions posted, none has run): the clock already
+                # stands at the jump target (the next time-bearing event is still held against that target;
+                # the observed clock `last_t` itself is not touched)
+                tnow = expect_after_idle
+            if o == "run":
+                if ctx == "top":
+                    in_run = True; run_handlers = 0; run_fires = 0; idles_stopped = 0; second_idle_t = None
+                continue
+            ops_since_R = True
+            if o == "stop":
+                if not stopped: idles_stopped = 0; second_idle_t = None
+                stopped = True; ever_stopped = True
+                stats["stop_calls"] += 1
+                if ctx == "top": stats["stop_at_top"] += 1
+                continue
+            if o == "restart":
+                if stopped:
+                    if in_run: stats["restart_inside_run"] += 1
+                    nw = sum(1 for v in ref.t.values() if v["armed"] and v["waiter"] is not None) \
+                        + sum(1 for h_, st_ in started.items() if st_["state"] == "fired" and h_ not in done)
+                    npost = sum(1 for p_ in posted if p_[0] not in done)
+                    if nw >= 2: stats["restart_with_2_waits_pending"] += 1
+                    if nw >= 1 and npost >= 1: stats["restart_with_wait_and_post_pending"] += 1
+                stopped = False; idles_stopped = 0; second_idle_t = None; continue
             if o == "now":
                 observe_time(int(res), "clock read"); continue
             if o in ("post", "defer", "dispatch"):
@@ -208,7 +268,7 @@ def check(lines):
                 if o == "dispatch" and ctx.startswith("h"):
                     posted_ids.setdefault("dispatch", set()).add(h)
                 else:
-                    posted.append((h, last_t))
+                    posted.append((h, tnow))
                 continue
             if "." not in o: continue
             n, m = o.split(".", 1)
@@ -217,7 +277,7 @@ def check(lines):
             v = ref.get(n)
             if m in ("expires_at", "expires_after"):
                 exp_ret = abort_waiter(v)
-                e = int(op[1]) if m == "expires_at" else last_t + int(op[1])
+                e = int(op[1]) if m == "expires_at" else tnow + int(op[1])
                 v["e"] = e; v["armed"] = True; v["seq"] = ref.seq; ref.seq += 1
                 if res is not None and int(res) != exp_ret:
                     f3.append(("cancel_return", "%s returned %s, a wait was %spending" % (" ".join(op), res, "" if exp_ret else "not ")))
@@ -228,20 +288,25 @@ def check(lines):
                     f3.append(("cancel_return", "%s returned %s, a wait was %spending" % (" ".join(op), res, "" if exp_ret else "not ")))
             elif m == "wait":
                 h = op[1][1:]
-                started[h] = dict(timer=n, s=last_t, e=v["e"], state="pending")
+                started[h] = dict(timer=n, s=tnow, e=v["e"], state="pending", wseq=len(started))
                 if v["armed"]:
                     v["waiter"] = h
-                elif v["e"] > last_t:
+                elif v["e"] > tnow:
                     # not armed (cancelled or fired) but expiry still ahead: waits for it
                     v["armed"] = True; v["waiter"] = h; v["seq"] = ref.seq; ref.seq += 1
                     stats["requeue"] += 1
                 else:
-                    started[h]["state"] = "fired"; started[h]["due"] = last_t
+                    started[h]["state"] = "fired"; started[h]["due"] = tnow
                     stats["immediate"] += 1
             elif m == "expiry":
                 if res is not None and int(res) != v["e"]:
                     f3.append(("expiry_getter", "%s returned %s expected %d" % (n, res, v["e"])))
             continue
+    if ever_stopped:
+        # C02: after stop() / restart() / run() no event is lost, duplicated or reordered
+        for c, d in f3:
+            if c in ("at_most_once", "order", "completed_wait_never_ran"):
+                f2.append(("stop_restart_" + c, d))
     return f2, f3, stats
 
 def check_lines(lines):
